@@ -25,6 +25,11 @@ ck.regen()
 mods = ck.props_modules()
 if mods:
     ck.lean(mods)
+    ck.require_theorems([
+        'LbzVerif.Props.C07.corrupt_rejected_cleanly',
+        'LbzVerif.Props.C07.block_error_is_fatal',
+        'LbzVerif.Props.C07.truncated_stream_is_error',
+    ])
 exe = ck.build_lbzip2(asan=False)
 exe_asan = None if ck.quick else ck.build_lbzip2('lbzip2-asan', asan=True,
                                                  ndebug=False)
